@@ -1,9 +1,1620 @@
-//! C17 — (module under construction)
-use crate::report::{Coverage, Reporter};
-use serde_json::Value;
+//! C17 — Web Annotation export is well-formed JSON faithful to the annotation.
+//!
+//! Bounded-exhaustive enumeration of (store, annotation, export configuration) cases:
+//!  (1) shape sweep: every selector kind, simple and nested in Multi/Composite/Directional selectors, over all
+//!      ranges of a short text, crossed with every export configuration;
+//!  (2) value sweep: every value of a menu (all DataValue types, nested lists, datetimes, non-finite floats, all
+//!      awkward strings up to a length over a small alphabet) as body value in three layouts;
+//!  (3) W3C-namespace key sweep (keys that are lifted out of the body);
+//!  (4) identifier sweep: every awkward string as annotation / resource / dataset / key identifier;
+//!  (5) every annotation of every state of the history exploration (the stores of C01).
+//! Oracle: `serde_json::from_str` on the exporter's output, then a structural comparison of `id`, `@context`,
+//! the flattened `target` and the data members with a description of the annotation that is computed from the
+//! case specification (or from the reference model for (5)), never from the exporter.
+//!
+//! Signatures are `<case class>|cfg=<configuration>|<symptom>`. To keep one defect from fanning out over every case:
+//! a symptom is reported under a non-default configuration only if the same case does not show it under the
+//! configuration that one extends; symptoms a configuration shows on the plainest annotation (`plain-annotation`
+//! probe) are reported there only; the value / W3C-key / identifier sweeps do not repeat what their own plain variant
+//! (plain value, plain identifiers) already shows.
 
-pub fn run(_rep: &Reporter) -> Coverage {
-    Coverage::default()
+use crate::c01::plans;
+use crate::c05::{awkward_strings, value_class, value_menu};
+use crate::hist::*;
+use crate::model::*;
+use crate::ops::TKind;
+use crate::report::{Coverage, Reporter, Tier};
+use crate::util::{all_ranges, catch, msg_class};
+use rayon::prelude::*;
+use serde_json::{json, Map, Value};
+use stam::*;
+use std::sync::atomic::{AtomicU64, Ordering};
+
+const CONTEXT_ANNO: &str = "http://www.w3.org/ns/anno.jsonld";
+const NS_ANNO: &str = "http://www.w3.org/ns/anno/";
+const CTX_EXTRA: &str = "http://example.org/ctx.jsonld";
+/// keys of the W3C namespace that belong to the annotation itself rather than to its body
+const TOP_KEYS: [&str; 5] = ["generated", "generator", "motivation", "created", "creator"];
+
+// ---------------------------------------------------------------------------------------------
+// export configurations
+
+pub struct Cfg {
+    pub name: &'static str,
+    pub w: WebAnnoConfig,
+    /// symptoms this configuration shows on the plainest annotation (filled by `probe_configs`): they are reported
+    /// once, for that annotation, and not again for every other case
+    pub base: Vec<String>,
+    /// index of the configuration this one extends: a symptom the same case already shows there is not reported again
+    pub parent: Option<usize>,
 }
 
-pub fn replay(_rep: &Reporter, _case: &Value) {}
+/// The first configuration must be the default one (failures under another configuration are only reported
+/// when the default configuration does not show the same symptom on the same case).
+pub fn configs() -> Vec<Cfg> {
+    let base = WebAnnoConfig { auto_generated: false, auto_generator: false, ..Default::default() };
+    let pre = WebAnnoConfig {
+        default_annotation_iri: "http://example.org/anno".into(),
+        default_set_iri: "http://example.org/set/".into(),
+        default_resource_iri: "http://example.org/res#".into(),
+        ..base.clone()
+    };
+    vec![
+        Cfg { parent: None, base: vec![], name: "default", w: base.clone() },
+        Cfg { parent: Some(0), base: vec![], name: "prefixes", w: pre.clone() },
+        Cfg { parent: Some(1), base: vec![], name: "namespaces", w: pre.clone().with_namespace("ex".into(), "http://example.org/set/".into()) },
+        Cfg { parent: Some(0), base: vec![], name: "extra_context", w: WebAnnoConfig { extra_context: vec![CTX_EXTRA.into()], ..base.clone() } },
+        Cfg {
+            parent: Some(3),
+            base: vec![],
+            name: "namespaces+extra_context",
+            w: WebAnnoConfig { extra_context: vec![CTX_EXTRA.into()], ..pre.clone() }.with_namespace("ex".into(), "http://example.org/set/".into()),
+        },
+        Cfg { parent: Some(0), base: vec![], name: "template", w: WebAnnoConfig { extra_target_template: Some("{resource}/{begin}/{end}".into()), ..base.clone() } },
+    ]
+}
+
+// ---------------------------------------------------------------------------------------------
+// case specification for directly built stores
+
+#[derive(Clone, Debug)]
+pub enum PartSpec {
+    Text(String, usize, usize),
+    /// annotation (index into `anns`) with an optional relative offset
+    Ann(usize, Option<(usize, usize)>),
+    Res(String),
+    Set(String),
+    Key(String, String),
+    Data(String, String),
+}
+
+#[derive(Clone, Debug)]
+pub struct DataSpec {
+    pub set: String,
+    pub key: String,
+    pub val: DataValue,
+    pub id: Option<String>,
+}
+
+#[derive(Clone, Debug)]
+pub struct AnnSpec {
+    pub id: Option<String>,
+    pub kind: TKind,
+    pub parts: Vec<PartSpec>,
+    pub data: Vec<DataSpec>,
+}
+
+#[derive(Clone, Debug)]
+pub struct StoreSpec {
+    pub res: Vec<(String, String)>,
+    pub anns: Vec<AnnSpec>,
+}
+
+fn d(set: &str, key: &str, val: DataValue) -> DataSpec {
+    DataSpec { set: set.into(), key: key.into(), val, id: None }
+}
+
+fn value_to_json(v: &DataValue) -> Value {
+    match v {
+        DataValue::Null => json!({"t": "null"}),
+        DataValue::Bool(b) => json!({"t": "bool", "v": b}),
+        DataValue::Int(i) => json!({"t": "int", "v": i.to_string()}),
+        DataValue::Float(f) => json!({"t": "float", "bits": f.to_bits().to_string(), "shown": format!("{:?}", f)}),
+        DataValue::String(s) => json!({"t": "str", "v": s}),
+        DataValue::Datetime(d) => json!({"t": "dt", "v": d.to_rfc3339()}),
+        DataValue::List(l) => json!({"t": "list", "v": l.iter().map(value_to_json).collect::<Vec<_>>()}),
+    }
+}
+
+fn value_from_json(v: &Value) -> Option<DataValue> {
+    Some(match v["t"].as_str()? {
+        "null" => DataValue::Null,
+        "bool" => DataValue::Bool(v["v"].as_bool()?),
+        "int" => DataValue::Int(v["v"].as_str()?.parse().ok()?),
+        "float" => DataValue::Float(f64::from_bits(v["bits"].as_str()?.parse().ok()?)),
+        "str" => DataValue::String(v["v"].as_str()?.to_string()),
+        "dt" => DataValue::Datetime(chrono::DateTime::parse_from_rfc3339(v["v"].as_str()?).ok()?),
+        "list" => DataValue::List(v["v"].as_array()?.iter().map(value_from_json).collect::<Option<Vec<_>>>()?),
+        _ => return None,
+    })
+}
+
+fn part_to_json(p: &PartSpec) -> Value {
+    match p {
+        PartSpec::Text(r, b, e) => json!(["text", r, b, e]),
+        PartSpec::Ann(a, off) => json!(["ann", a, off.map(|o| vec![o.0, o.1])]),
+        PartSpec::Res(r) => json!(["res", r]),
+        PartSpec::Set(s) => json!(["set", s]),
+        PartSpec::Key(s, k) => json!(["key", s, k]),
+        PartSpec::Data(s, i) => json!(["data", s, i]),
+    }
+}
+
+fn part_from_json(v: &Value) -> Option<PartSpec> {
+    let s = |i: usize| v[i].as_str().map(|x| x.to_string());
+    Some(match v[0].as_str()? {
+        "text" => PartSpec::Text(s(1)?, v[2].as_u64()? as usize, v[3].as_u64()? as usize),
+        "ann" => PartSpec::Ann(
+            v[1].as_u64()? as usize,
+            v[2].as_array().map(|o| (o[0].as_u64().unwrap_or(0) as usize, o[1].as_u64().unwrap_or(0) as usize)),
+        ),
+        "res" => PartSpec::Res(s(1)?),
+        "set" => PartSpec::Set(s(1)?),
+        "key" => PartSpec::Key(s(1)?, s(2)?),
+        "data" => PartSpec::Data(s(1)?, s(2)?),
+        _ => return None,
+    })
+}
+
+fn spec_to_json(spec: &StoreSpec) -> Value {
+    json!({
+        "res": spec.res,
+        "anns": spec.anns.iter().map(|a| json!({
+            "id": a.id,
+            "kind": serde_json::to_value(a.kind).unwrap(),
+            "parts": a.parts.iter().map(part_to_json).collect::<Vec<_>>(),
+            "data": a.data.iter().map(|d| json!({"set": d.set, "key": d.key, "val": value_to_json(&d.val), "id": d.id})).collect::<Vec<_>>(),
+        })).collect::<Vec<_>>(),
+    })
+}
+
+fn spec_from_json(v: &Value) -> Option<StoreSpec> {
+    let res = v["res"]
+        .as_array()?
+        .iter()
+        .map(|r| Some((r[0].as_str()?.to_string(), r[1].as_str()?.to_string())))
+        .collect::<Option<Vec<_>>>()?;
+    let mut anns = Vec::new();
+    for a in v["anns"].as_array()? {
+        anns.push(AnnSpec {
+            id: a["id"].as_str().map(|x| x.to_string()),
+            kind: serde_json::from_value(a["kind"].clone()).ok()?,
+            parts: a["parts"].as_array()?.iter().map(part_from_json).collect::<Option<Vec<_>>>()?,
+            data: a["data"]
+                .as_array()?
+                .iter()
+                .map(|d| {
+                    Some(DataSpec {
+                        set: d["set"].as_str()?.to_string(),
+                        key: d["key"].as_str()?.to_string(),
+                        val: value_from_json(&d["val"])?,
+                        id: d["id"].as_str().map(|x| x.to_string()),
+                    })
+                })
+                .collect::<Option<Vec<_>>>()?,
+        });
+    }
+    Some(StoreSpec { res, anns })
+}
+
+fn part_builder(spec: &StoreSpec, p: &PartSpec) -> SelectorBuilder<'static> {
+    match p {
+        PartSpec::Text(r, b, e) => SelectorBuilder::textselector(r.clone(), Offset::simple(*b, *e)),
+        PartSpec::Ann(a, off) => {
+            let off = off.map(|(b, e)| Offset::simple(b, e));
+            match &spec.anns[*a].id {
+                Some(id) => SelectorBuilder::annotationselector(id.clone(), off),
+                None => SelectorBuilder::annotationselector(BuildItem::Handle(AnnotationHandle::new(*a)), off),
+            }
+        }
+        PartSpec::Res(r) => SelectorBuilder::resourceselector(r.clone()),
+        PartSpec::Set(s) => SelectorBuilder::datasetselector(s.clone()),
+        PartSpec::Key(s, k) => SelectorBuilder::datakeyselector(s.clone(), k.clone()),
+        PartSpec::Data(s, i) => SelectorBuilder::annotationdataselector(s.clone(), i.clone()),
+    }
+}
+
+fn ann_builder(spec: &StoreSpec, a: &AnnSpec) -> AnnotationBuilder<'static> {
+    let mut b = AnnotationBuilder::new();
+    if let Some(id) = &a.id {
+        b = b.with_id(id.clone());
+    }
+    let parts: Vec<SelectorBuilder<'static>> = a.parts.iter().map(|p| part_builder(spec, p)).collect();
+    let target = match a.kind {
+        TKind::Simple => parts.into_iter().next().expect("simple target has one part"),
+        TKind::Multi => SelectorBuilder::multiselector(parts),
+        TKind::Composite => SelectorBuilder::compositeselector(parts),
+        TKind::Directional => SelectorBuilder::directionalselector(parts),
+    };
+    b = b.with_target(target);
+    for d in &a.data {
+        b = match &d.id {
+            Some(id) => b.with_data_with_id(d.set.clone(), d.key.clone(), d.val.clone(), id.clone()),
+            None => b.with_data(d.set.clone(), d.key.clone(), d.val.clone()),
+        };
+    }
+    b
+}
+
+/// Build the store; `Err` = the builder API refused or panicked on some item (not a matter for this property).
+pub fn build(spec: &StoreSpec) -> Result<AnnotationStore, String> {
+    let mut store = AnnotationStore::new(Config::default());
+    let r = catch(|| -> Result<(), StamError> {
+        for (id, text) in &spec.res {
+            store.add_resource(TextResourceBuilder::new().with_id(id.clone()).with_text(text.clone()))?;
+        }
+        for (i, a) in spec.anns.iter().enumerate() {
+            let h = store.annotate(ann_builder(spec, a))?;
+            if h.as_usize() != i {
+                return Err(StamError::OtherError("handle differs from index"));
+            }
+        }
+        Ok(())
+    });
+    match r {
+        Err(p) => Err(format!("panic:{}", msg_class(&p))),
+        Ok(Err(e)) => Err(format!("err:{}", format!("{:?}", e).chars().take_while(|c| c.is_alphanumeric()).collect::<String>())),
+        Ok(Ok(())) => Ok(store),
+    }
+}
+
+// ---------------------------------------------------------------------------------------------
+// configuration-independent description of what an annotation says
+
+#[derive(Clone, Debug)]
+pub enum AItem {
+    Text { res: String, b: usize, e: usize, via_ann: bool },
+    AnnNode(Option<String>),
+    ResNode(String),
+    SetNode(String),
+    /// DataKeySelector / AnnotationDataSelector: no Web Annotation form
+    Unser,
+}
+
+#[derive(Clone, Debug)]
+pub struct Abs {
+    pub ann_id: Option<String>,
+    pub kind: TKind,
+    pub items: Vec<AItem>,
+    pub data: Vec<(String, String, DataValue)>,
+}
+
+fn spec_simple_text(spec: &StoreSpec, a: usize) -> Option<(String, usize, usize)> {
+    let ann = spec.anns.get(a)?;
+    if ann.kind != TKind::Simple {
+        return None;
+    }
+    match &ann.parts[0] {
+        PartSpec::Text(r, b, e) => Some((r.clone(), *b, *e)),
+        PartSpec::Ann(t, Some((b, e))) => spec_simple_text(spec, *t).map(|(r, pb, _)| (r, pb + b, pb + e)),
+        _ => None,
+    }
+}
+
+pub fn abs_of_spec(spec: &StoreSpec, i: usize) -> Option<Abs> {
+    let a = spec.anns.get(i)?;
+    let mut items = Vec::new();
+    for p in &a.parts {
+        items.push(match p {
+            PartSpec::Text(r, b, e) => AItem::Text { res: r.clone(), b: *b, e: *e, via_ann: false },
+            PartSpec::Ann(t, None) => AItem::AnnNode(spec.anns.get(*t)?.id.clone()),
+            PartSpec::Ann(t, Some((b, e))) => {
+                let (r, pb, _) = spec_simple_text(spec, *t)?;
+                AItem::Text { res: r, b: pb + b, e: pb + e, via_ann: true }
+            }
+            PartSpec::Res(r) => AItem::ResNode(r.clone()),
+            PartSpec::Set(s) => AItem::SetNode(s.clone()),
+            PartSpec::Key(..) | PartSpec::Data(..) => AItem::Unser,
+        });
+    }
+    Some(Abs {
+        ann_id: a.id.clone(),
+        kind: a.kind,
+        items,
+        data: a.data.iter().map(|d| (d.set.clone(), d.key.clone(), d.val.clone())).collect(),
+    })
+}
+
+pub fn abs_of_model(m: &Model, i: usize) -> Option<Abs> {
+    let a = m.anns.get(i)?.as_ref()?;
+    let rid = |r: usize| -> Option<String> { Some(m.res.get(r)?.as_ref()?.id.clone()) };
+    let mut items = Vec::new();
+    for p in &a.parts {
+        items.push(match p {
+            MT::Text { res, b, e, .. } => AItem::Text { res: rid(*res)?, b: *b, e: *e, via_ann: false },
+            MT::Ann { text: Some((res, b, e, _)), .. } => AItem::Text { res: rid(*res)?, b: *b, e: *e, via_ann: true },
+            MT::Ann { ann, text: None } => AItem::AnnNode(m.anns.get(*ann)?.as_ref()?.id.clone()),
+            MT::Res(r) => AItem::ResNode(rid(*r)?),
+            MT::Set(s) => AItem::SetNode(m.sets.get(*s)?.as_ref()?.id.clone()),
+            MT::Key(..) | MT::Data(..) => AItem::Unser,
+        });
+    }
+    let mut data = Vec::new();
+    for (si, di) in &a.data {
+        let s = m.sets.get(*si)?.as_ref()?;
+        let dd = s.data.get(*di)?.as_ref()?;
+        data.push((s.id.clone(), s.keys.get(dd.key)?.clone()?, dd.val.to_datavalue()));
+    }
+    Some(Abs { ann_id: a.id.clone(), kind: a.kind, items, data })
+}
+
+fn item_cat(i: &AItem) -> &'static str {
+    match i {
+        AItem::Text { .. } => "T",
+        AItem::AnnNode(_) | AItem::ResNode(_) | AItem::SetNode(_) => "N",
+        AItem::Unser => "U",
+    }
+}
+
+/// Class of the target for signatures: exact part kind for simple targets; for complex targets the selector kind and
+/// the set of part categories (T text-bearing, N annotation/resource/dataset node, U key/data selector; a U next to
+/// any other category is the single class `U,other`).
+pub fn shape_class(abs: &Abs) -> String {
+    let nodata = "";
+    if abs.kind == TKind::Simple {
+        let k = match abs.items.first() {
+            Some(AItem::Text { via_ann: false, .. }) => "Text",
+            Some(AItem::Text { via_ann: true, .. }) => "AnnotationWithOffset",
+            Some(AItem::AnnNode(Some(_))) => "Annotation",
+            Some(AItem::AnnNode(None)) => "AnnotationWithoutId",
+            Some(AItem::ResNode(_)) => "Resource",
+            Some(AItem::SetNode(_)) => "DataSet",
+            Some(AItem::Unser) => "KeyOrData",
+            None => "?",
+        };
+        format!("target:Simple[{}]{}", k, nodata)
+    } else {
+        let mut cats: Vec<&str> = abs.items.iter().map(item_cat).collect();
+        cats.sort();
+        cats.dedup();
+        if cats.contains(&"U") && cats.len() > 1 {
+            cats = vec!["U", "other"]; // a key/data selector next to anything else: one class, whatever the company
+        }
+        format!("target:{:?}[{}]{}", abs.kind, cats.join(","), nodata)
+    }
+}
+
+// ---------------------------------------------------------------------------------------------
+// expected IRIs
+
+fn plain(s: &str) -> bool {
+    !s.is_empty() && s.chars().all(|c| c.is_ascii_alphanumeric())
+}
+
+/// The documented mapping for identifiers without special characters: an identifier that already is an IRI is kept,
+/// any other gets the configured prefix ("_:" if none), joined with '/' unless the prefix ends in '/', '#' or ':'.
+/// `None` = the identifier has characters for which the documentation only promises "some transformations".
+fn model_iri(id: &str, prefix: &str) -> Option<String> {
+    if plain(id) {
+        let p = if prefix.is_empty() { "_:" } else { prefix };
+        let sep = if p.ends_with('/') || p.ends_with('#') || p.ends_with(':') { "" } else { "/" };
+        Some(format!("{}{}{}", p, sep, id))
+    } else if let Some(rest) = id.strip_prefix("http://example.org/") {
+        if plain(rest) {
+            Some(id.to_string())
+        } else {
+            None
+        }
+    } else {
+        None
+    }
+}
+
+#[derive(Clone, Debug, PartialEq, PartialOrd)]
+pub enum Item {
+    Text { src: String, b: u64, e: u64 },
+    Node { id: Option<String>, typ: &'static str },
+}
+
+pub struct Expect {
+    pub top_unser: bool,
+    pub ann_iri: Option<String>,
+    pub ordered: bool,
+    pub items: Vec<Item>,
+    /// (top-level?, member name, value)
+    pub data: Vec<(bool, String, DataValue)>,
+}
+
+/// Expected content under a configuration. Identifiers with special characters are mapped with the library's public
+/// `IRI::iri()` (the documentation does not pin their transformation); plain ones with `model_iri`.
+pub fn resolve(abs: &Abs, w: &WebAnnoConfig, store: &AnnotationStore) -> Option<Expect> {
+    let res_iri = |id: &str| -> Option<String> {
+        model_iri(id, &w.default_resource_iri).or_else(|| store.resource(id)?.iri(&w.default_resource_iri).map(|c| c.into_owned()))
+    };
+    let ann_iri = |id: &str| -> Option<String> {
+        model_iri(id, &w.default_annotation_iri).or_else(|| store.annotation(id)?.iri(&w.default_annotation_iri).map(|c| c.into_owned()))
+    };
+    let set_iri = |id: &str| -> Option<String> {
+        model_iri(id, &w.default_set_iri).or_else(|| store.dataset(id)?.iri(&w.default_set_iri).map(|c| c.into_owned()))
+    };
+    let mut items = Vec::new();
+    for it in &abs.items {
+        match it {
+            AItem::Text { res, b, e, .. } => items.push(Item::Text { src: res_iri(res)?, b: *b as u64, e: *e as u64 }),
+            AItem::AnnNode(Some(id)) => items.push(Item::Node { id: Some(ann_iri(id)?), typ: "Annotation" }),
+            AItem::AnnNode(None) => items.push(Item::Node { id: None, typ: "Annotation" }),
+            AItem::ResNode(id) => items.push(Item::Node { id: Some(res_iri(id)?), typ: "Text" }),
+            AItem::SetNode(id) => items.push(Item::Node { id: Some(set_iri(id)?), typ: "Dataset" }),
+            AItem::Unser => {}
+        }
+    }
+    let mut data = Vec::new();
+    for (set, key, val) in &abs.data {
+        if set == CONTEXT_ANNO || set == NS_ANNO {
+            data.push((TOP_KEYS.contains(&key.as_str()), key.clone(), val.clone()));
+        } else {
+            let iri = match model_iri(set, &w.default_set_iri).and_then(|si| model_iri(key, &si)) {
+                Some(i) => i,
+                None => store.dataset(set.as_str())?.key(key.as_str())?.iri(&w.default_set_iri)?.into_owned(),
+            };
+            let mut name = iri.clone();
+            for (uri, ns) in &w.context_namespaces {
+                if let Some(rest) = iri.strip_prefix(uri.as_str()) {
+                    name = format!("{}:{}", ns, rest);
+                    break;
+                }
+            }
+            data.push((false, name, val.clone()));
+        }
+    }
+    Some(Expect {
+        top_unser: abs.kind == TKind::Simple && matches!(abs.items.first(), Some(AItem::Unser)),
+        ann_iri: match &abs.ann_id {
+            Some(id) => Some(ann_iri(id)?),
+            None => None,
+        },
+        ordered: abs.kind == TKind::Simple || abs.kind == TKind::Directional,
+        items,
+        data,
+    })
+}
+
+// ---------------------------------------------------------------------------------------------
+// the oracle proper: parse and compare
+
+fn jtype(v: &Value) -> &'static str {
+    match v {
+        Value::Null => "null",
+        Value::Bool(_) => "bool",
+        Value::Number(_) => "number",
+        Value::String(_) => "string",
+        Value::Array(_) => "array",
+        Value::Object(_) => "object",
+    }
+}
+
+/// Same content and JSON type (string<->string, Int/Float<->number, Bool<->bool, Null<->null, List<->array, Datetime<->string).
+pub fn value_matches(j: &Value, dv: &DataValue) -> Result<(), String> {
+    let wt = || Err(format!("wrong-type:{}-for-{}", jtype(j), dv_type(dv)));
+    let wc = || Err(format!("wrong-content:{}", dv_type(dv)));
+    match dv {
+        DataValue::Null => {
+            if j.is_null() {
+                Ok(())
+            } else {
+                wt()
+            }
+        }
+        DataValue::Bool(b) => match j {
+            Value::Bool(x) if x == b => Ok(()),
+            Value::Bool(_) => wc(),
+            _ => wt(),
+        },
+        DataValue::Int(i) => match j {
+            Value::Number(n) => {
+                if n.as_i64() == Some(*i as i64) || (n.is_f64() && i.unsigned_abs() < (1 << 53) && n.as_f64() == Some(*i as f64)) {
+                    Ok(())
+                } else {
+                    wc()
+                }
+            }
+            _ => wt(),
+        },
+        DataValue::Float(f) => {
+            if !f.is_finite() {
+                return Ok(()); // JSON has no form for NaN / infinities: only well-formedness is required
+            }
+            match j {
+                Value::Number(n) => {
+                    let g = n.as_f64().unwrap_or(f64::NAN);
+                    // tolerance: serde_json's decimal parser is not guaranteed to be correctly rounded
+                    if (g - f).abs() <= f.abs() * 1e-14 + 1e-300 {
+                        Ok(())
+                    } else {
+                        wc()
+                    }
+                }
+                _ => wt(),
+            }
+        }
+        DataValue::String(s) => match j {
+            Value::String(x) => {
+                if x == s {
+                    Ok(())
+                } else {
+                    wc()
+                }
+            }
+            // a string that is an IRI may be exported as a node reference (STAM: such strings SHOULD be read as IRIs)
+            Value::Object(o) if s.contains(':') => match o.get("id") {
+                Some(Value::String(x)) if o.len() == 1 => {
+                    if x == s {
+                        Ok(())
+                    } else {
+                        wc()
+                    }
+                }
+                _ => wt(),
+            },
+            _ => wt(),
+        },
+        DataValue::Datetime(d) => {
+            let text = match j {
+                Value::String(x) => Some(x.as_str()),
+                Value::Object(o) => o.get("@value").and_then(|v| v.as_str()),
+                _ => None,
+            };
+            match text {
+                None => wt(),
+                Some(x) => match chrono::DateTime::parse_from_rfc3339(x) {
+                    Ok(p) if p == *d => Ok(()),
+                    _ => wc(),
+                },
+            }
+        }
+        DataValue::List(l) => match j {
+            Value::Array(a) => {
+                if a.len() != l.len() {
+                    return wc();
+                }
+                for (x, y) in a.iter().zip(l.iter()) {
+                    value_matches(x, y).map_err(|e| format!("element-{}", e))?;
+                }
+                Ok(())
+            }
+            _ => wt(),
+        },
+    }
+}
+
+fn dv_type(dv: &DataValue) -> &'static str {
+    match dv {
+        DataValue::Null => "Null",
+        DataValue::Bool(_) => "Bool",
+        DataValue::Int(_) => "Int",
+        DataValue::Float(_) => "Float",
+        DataValue::String(_) => "String",
+        DataValue::Datetime(_) => "Datetime",
+        DataValue::List(_) => "List",
+    }
+}
+
+#[derive(Default)]
+struct Flat {
+    items: Vec<Item>,
+    extras: Vec<String>,
+    malformed: Vec<String>,
+}
+
+fn static_type(t: Option<&str>) -> &'static str {
+    match t {
+        Some("Annotation") => "Annotation",
+        Some("Text") => "Text",
+        Some("Dataset") => "Dataset",
+        Some(_) => "<other>",
+        None => "<none>",
+    }
+}
+
+fn flatten(v: &Value, out: &mut Flat) {
+    match v {
+        Value::Array(a) => a.iter().for_each(|x| flatten(x, out)),
+        Value::String(s) => out.extras.push(s.clone()),
+        Value::Object(o) => {
+            if o.contains_key("source") || o.contains_key("selector") {
+                let src = o.get("source").and_then(|s| s.as_str());
+                let b = o.get("selector").and_then(|s| s.get("start")).and_then(|x| x.as_u64());
+                let e = o.get("selector").and_then(|s| s.get("end")).and_then(|x| x.as_u64());
+                match (src, b, e) {
+                    (Some(src), Some(b), Some(e)) => out.items.push(Item::Text { src: src.to_string(), b, e }),
+                    _ => out.malformed.push("text-target-without-source-start-end".into()),
+                }
+            } else if let Some(items) = o.get("items") {
+                flatten(items, out);
+            } else if o.contains_key("id") {
+                out.items.push(Item::Node {
+                    id: o.get("id").and_then(|x| x.as_str()).map(|x| x.to_string()),
+                    typ: static_type(o.get("type").and_then(|x| x.as_str())),
+                });
+            } else {
+                out.malformed.push("object-without-source-items-id".into());
+            }
+        }
+        other => out.malformed.push(jtype(other).to_string()),
+    }
+}
+
+fn item_diff(got: &Item, want: &Item) -> Option<String> {
+    match (got, want) {
+        (Item::Text { src: s1, b: b1, e: e1 }, Item::Text { src: s2, b: b2, e: e2 }) => {
+            if s1 != s2 {
+                Some("target:source".into())
+            } else if (b1, e1) != (b2, e2) {
+                Some("target:offsets".into())
+            } else {
+                None
+            }
+        }
+        (Item::Node { id: i1, typ: t1 }, Item::Node { id: i2, typ: t2 }) => {
+            if i2.is_none() {
+                None // no documented form for a reference to an annotation without public id
+            } else if i1 != i2 {
+                Some(format!("target:node-id:{}", t2))
+            } else if t1 != t2 {
+                Some(format!("target:node-type:{}", t2))
+            } else {
+                None
+            }
+        }
+        _ => Some("target:item-kind".into()),
+    }
+}
+
+fn sort_items(v: &[Item]) -> Vec<Item> {
+    let mut v = v.to_vec();
+    v.sort_by(|a, b| format!("{:?}", a).cmp(&format!("{:?}", b)));
+    v
+}
+
+fn check_context(ctx: Option<&Value>, w: &WebAnnoConfig) -> Option<String> {
+    let ctx = ctx?;
+    let members: Vec<&Value> = match ctx {
+        Value::Array(a) => a.iter().collect(),
+        other => vec![other],
+    };
+    let has_str = |s: &str| members.iter().any(|m| m.as_str() == Some(s));
+    if !has_str(CONTEXT_ANNO) {
+        return Some("the W3C anno context is not listed".into());
+    }
+    for x in &w.extra_context {
+        if !has_str(x) {
+            return Some(format!("extra context {} is not listed", x));
+        }
+    }
+    for (uri, ns) in &w.context_namespaces {
+        if !members.iter().any(|m| m.get(ns.as_str()).and_then(|u| u.as_str()) == Some(uri.as_str())) {
+            return Some(format!("namespace {} -> {} is not declared", ns, uri));
+        }
+    }
+    None
+}
+
+/// All symptoms of one export (symptom class, detail). Empty = the export is faithful.
+pub fn check_output(out: &str, exp: &Expect, w: &WebAnnoConfig) -> Vec<(String, String)> {
+    let mut sy: Vec<(String, String)> = Vec::new();
+    let v: Value = match serde_json::from_str(out) {
+        Ok(v) => v,
+        Err(e) => return vec![("not-json".into(), format!("serde_json: {}", e))],
+    };
+    let obj = match v.as_object() {
+        Some(o) => o,
+        None => return vec![("not-an-object".into(), format!("top-level JSON type is {}", jtype(&v)))],
+    };
+    // id
+    if let Some(want) = &exp.ann_iri {
+        match obj.get("id") {
+            None => sy.push(("id:missing".into(), format!("expected id {:?}", want))),
+            Some(Value::String(s)) if s == want => {}
+            Some(other) => sy.push(("id:wrong".into(), format!("id is {} but the annotation's IRI is {:?}", other, want))),
+        }
+    }
+    // @context
+    match obj.get("@context") {
+        None => sy.push(("context:missing".into(), String::new())),
+        ctx => {
+            if let Some(d) = check_context(ctx, w) {
+                sy.push(("context:wrong".into(), d));
+            }
+        }
+    }
+    // target
+    match obj.get("target") {
+        None => sy.push(("target:missing".into(), String::new())),
+        Some(t) => {
+            // A target array holds alternative renderings of the same target: the usual one plus the renderings made
+            // from the extra-target template (strings, or a copy of the complex wrapper with strings for the text
+            // parts). The rendering with the most object items is the usual one; strings are collected from all.
+            let mut flat = Flat::default();
+            match t {
+                Value::Array(a) => {
+                    let mut parts: Vec<Flat> = a
+                        .iter()
+                        .map(|x| {
+                            let mut f = Flat::default();
+                            flatten(x, &mut f);
+                            f
+                        })
+                        .collect();
+                    let mut best = 0;
+                    for (i, f) in parts.iter().enumerate() {
+                        if f.items.len() > parts[best].items.len() {
+                            best = i;
+                        }
+                    }
+                    for (i, f) in parts.iter_mut().enumerate() {
+                        flat.extras.append(&mut f.extras);
+                        flat.malformed.append(&mut f.malformed);
+                        if i == best {
+                            flat.items.append(&mut f.items);
+                        }
+                    }
+                }
+                other => flatten(other, &mut flat),
+            }
+            if let Some(m) = flat.malformed.first() {
+                sy.push(("target:item-malformed".into(), m.clone()));
+            } else {
+                let (got, want) = if exp.ordered { (flat.items.clone(), exp.items.clone()) } else { (sort_items(&flat.items), sort_items(&exp.items)) };
+                if got.len() != want.len() {
+                    let dir = if got.len() < want.len() { "fewer" } else { "more" };
+                    sy.push((format!("target:item-count:{}", dir), format!("target lists {:?}, the annotation selects {:?}", flat.items, exp.items)));
+                } else if let Some(diff) = got.iter().zip(want.iter()).find_map(|(g, w)| item_diff(g, w)) {
+                    let diff = if exp.ordered && sort_items(&got).iter().zip(sort_items(&want).iter()).all(|(g, w)| item_diff(g, w).is_none()) {
+                        "target:order".to_string()
+                    } else {
+                        diff
+                    };
+                    sy.push((diff, format!("target lists {:?}, the annotation selects {:?}", flat.items, exp.items)));
+                }
+                // extra targets generated from the template: one per text selection
+                let mut want_extra: Vec<String> = Vec::new();
+                if let Some(tpl) = &w.extra_target_template {
+                    for it in &exp.items {
+                        if let Item::Text { src, b, e } = it {
+                            want_extra.push(tpl.replace("{resource}", src).replace("{begin}", &b.to_string()).replace("{end}", &e.to_string()));
+                        }
+                    }
+                }
+                let mut got_extra = flat.extras.clone();
+                if !exp.ordered {
+                    want_extra.sort();
+                    got_extra.sort();
+                }
+                if got_extra != want_extra {
+                    let s = if w.extra_target_template.is_none() {
+                        "target:unexpected-string"
+                    } else if got_extra.len() < want_extra.len() {
+                        "target:extra-count:fewer"
+                    } else if got_extra.len() > want_extra.len() {
+                        "target:extra-count:more"
+                    } else {
+                        "target:extra-content"
+                    };
+                    sy.push((s.into(), format!("extra targets {:?}, the template gives {:?}", flat.extras, want_extra)));
+                }
+            }
+        }
+    }
+    // data
+    let body = obj.get("body").and_then(|b| b.as_object());
+    let mut names: Vec<(bool, &String)> = Vec::new();
+    for (top, name, _) in &exp.data {
+        if !names.contains(&(*top, name)) {
+            names.push((*top, name));
+        }
+    }
+    let mut body_missing = false;
+    for (top, name) in names {
+        let vals: Vec<&DataValue> = exp.data.iter().filter(|(t, n, _)| *t == top && n == name).map(|x| &x.2).collect();
+        let sect = if top { "top" } else { "body" };
+        let container: Option<&Map<String, Value>> = if top { Some(obj) } else { body };
+        let c = match container {
+            Some(c) => c,
+            None => {
+                if !body_missing {
+                    sy.push(("body:missing".into(), "the annotation has data but the export has no body object".into()));
+                }
+                body_missing = true;
+                continue;
+            }
+        };
+        match c.get(name.as_str()) {
+            None => sy.push((format!("{}:member-missing", sect), format!("no member {:?}; members are {:?}", name, c.keys().collect::<Vec<_>>()))),
+            Some(j) => {
+                if vals.len() == 1 {
+                    if let Err(e) = value_matches(j, vals[0]) {
+                        sy.push((format!("{}:{}", sect, e), format!("member {:?} is {} but the value is {:?}", name, j, vals[0])));
+                    }
+                } else {
+                    let ok = match j {
+                        Value::Array(a) => vals.iter().all(|v| a.iter().any(|x| value_matches(x, v).is_ok())),
+                        _ => false,
+                    };
+                    if !ok {
+                        sy.push((
+                            format!("{}:multi-valued-key-value-lost", sect),
+                            format!("member {:?} is {} after parsing, but the annotation carries {:?} under that key", name, j, vals),
+                        ));
+                    }
+                }
+            }
+        }
+    }
+    sy
+}
+
+// ---------------------------------------------------------------------------------------------
+// one annotation under every configuration
+
+#[derive(Default)]
+pub struct Counters {
+    pub exports: AtomicU64,
+    pub accepted: AtomicU64,
+    pub rejected: AtomicU64,
+    pub skipped: AtomicU64,
+    pub faithful: AtomicU64,
+}
+
+fn cut(s: &str, n: usize) -> String {
+    s.chars().take(n).collect()
+}
+
+pub fn check_annotation(
+    rep: &Reporter,
+    store: &AnnotationStore,
+    handle: usize,
+    abs: &Abs,
+    cfgs: &[Cfg],
+    class: &str,
+    ord: u64,
+    case: &dyn Fn(&str) -> Value,
+    cn: &Counters,
+    verbose: bool,
+    suppress: Option<&Vec<Vec<String>>>,
+) -> Vec<Vec<String>> {
+    let probe = class == PROBE_CLASS;
+    let ann = match store.annotation(AnnotationHandle::new(handle)) {
+        Some(a) if a.id() == abs.ann_id.as_deref() => a,
+        _ => {
+            cn.skipped.fetch_add(1, Ordering::Relaxed);
+            return Vec::new();
+        }
+    };
+    let mut seen: Vec<Vec<String>> = Vec::new();
+    for (ci, cfg) in cfgs.iter().enumerate() {
+        seen.push(Vec::new());
+        let exp = match catch(|| resolve(abs, &cfg.w, store)) {
+            Ok(Some(e)) => e,
+            _ => {
+                cn.skipped.fetch_add(1, Ordering::Relaxed);
+                continue;
+            }
+        };
+        cn.exports.fetch_add(1, Ordering::Relaxed);
+        let res = catch(|| ann.to_webannotation(&cfg.w));
+        let mut shown = String::new();
+        let symptoms: Vec<(String, String)> = match res {
+            Err(p) => vec![(format!("panic:{}", msg_class(&p)), p)],
+            Ok(out) => {
+                shown = out.clone();
+                if out.is_empty() {
+                    cn.rejected.fetch_add(1, Ordering::Relaxed);
+                    if exp.top_unser {
+                        vec![]
+                    } else {
+                        vec![("empty-output".into(), "the exporter returned an empty string for a target kind it documents as exportable".into())]
+                    }
+                } else {
+                    cn.accepted.fetch_add(1, Ordering::Relaxed);
+                    check_output(&out, &exp, &cfg.w)
+                }
+            }
+        };
+        if verbose {
+            println!("  cfg={}: output = {}", cfg.name, shown);
+            if symptoms.is_empty() {
+                println!("     faithful");
+            }
+            for (s, dd) in &symptoms {
+                println!("     {} :: {}", s, dd);
+            }
+        }
+        if symptoms.is_empty() && !shown.is_empty() {
+            cn.faithful.fetch_add(1, Ordering::Relaxed);
+        }
+        for (s, dd) in symptoms {
+            seen[ci].push(s.clone());
+            // not specific to this configuration: the configuration it extends shows the same symptom on this case
+            let mut p = cfg.parent;
+            let mut inherited = false;
+            while let Some(pi) = p {
+                inherited |= seen[pi].contains(&s);
+                p = cfgs[pi].parent;
+            }
+            // a defect of the configuration itself (reported by the probe), or of the plain variant of this case
+            let config_defect = cfg.base.contains(&s) && !probe;
+            let baseline = suppress.map(|b| b.get(ci).map(|l| l.contains(&s)).unwrap_or(false)).unwrap_or(false);
+            if inherited || config_defect || baseline {
+                continue;
+            }
+            rep.fail(
+                &format!("{}|cfg={}|{}", class, cfg.name, s),
+                ord * 8 + ci as u64,
+                || format!("annotation {:?} [{}] cfg={}: {} ;; output: {}", abs.ann_id, describe(abs), cfg.name, cut(&dd, 300), cut(&shown, 500)),
+                || case(cfg.name),
+            );
+        }
+    }
+    seen
+}
+
+fn describe(abs: &Abs) -> String {
+    let items: Vec<String> = abs
+        .items
+        .iter()
+        .map(|i| match i {
+            AItem::Text { res, b, e, via_ann } => format!("{}{:?}[{},{})", if *via_ann { "ann->" } else { "" }, res, b, e),
+            AItem::AnnNode(id) => format!("annotation {:?}", id),
+            AItem::ResNode(id) => format!("resource {:?}", id),
+            AItem::SetNode(id) => format!("dataset {:?}", id),
+            AItem::Unser => "key/data".into(),
+        })
+        .collect();
+    let data: Vec<String> = abs.data.iter().map(|(s, k, v)| format!("{:?}/{:?}={:?}", s, k, v)).collect();
+    format!("{:?} target {} data {}", abs.kind, items.join(" + "), data.join(", "))
+}
+
+const PROBE_CLASS: &str = "plain-annotation";
+
+fn probe_spec() -> StoreSpec {
+    StoreSpec { res: vec![("r".into(), "ab cd".into())], anns: vec![simple(Some("a0"), text("r", 0, 2), vec![d("s", "k", DataValue::String("v".into()))])] }
+}
+
+/// Export the plainest annotation (TextSelector, one string value, plain identifiers) under every configuration, report
+/// what fails there under the class `plain-annotation`, and remember those symptoms per configuration.
+pub fn probe_configs(rep: &Reporter, cn: &Counters) -> (Vec<Cfg>, Vec<Vec<String>>) {
+    let mut cfgs = configs();
+    let spec = probe_spec();
+    let store = build(&spec).expect("the plain store must build");
+    let abs = abs_of_spec(&spec, 0).unwrap();
+    let ann = store.annotation("a0").expect("a0");
+    // (not for the default configuration: what fails there is a property of the case, not of the configuration)
+    for cfg in cfgs.iter_mut().skip(1) {
+        if let Some(exp) = resolve(&abs, &cfg.w, &store) {
+            if let Ok(out) = catch(|| ann.to_webannotation(&cfg.w)) {
+                cfg.base = check_output(&out, &exp, &cfg.w).into_iter().map(|x| x.0).collect();
+            }
+        }
+    }
+    let seen = check_annotation(rep, &store, 0, &abs, &cfgs, PROBE_CLASS, 0, &|cfg| json!({"direct": {"sweep": "probe", "class": PROBE_CLASS, "spec": spec_to_json(&spec), "subject": 0}, "cfg": cfg}), cn, false, None);
+    (cfgs, seen)
+}
+
+// ---------------------------------------------------------------------------------------------
+// the direct sweeps
+
+pub struct DCase {
+    pub class: String,
+    pub spec: StoreSpec,
+    pub subjects: Vec<usize>,
+    /// true: the class is the target shape class of the subject
+    pub by_shape: bool,
+    /// per subject, per configuration: symptoms of the plain variant of the case, not to be reported again
+    pub suppress: Vec<Vec<Vec<String>>>,
+}
+
+fn simple(id: Option<&str>, part: PartSpec, data: Vec<DataSpec>) -> AnnSpec {
+    AnnSpec { id: id.map(|x| x.to_string()), kind: TKind::Simple, parts: vec![part], data }
+}
+
+fn text(r: &str, b: usize, e: usize) -> PartSpec {
+    PartSpec::Text(r.into(), b, e)
+}
+
+const KINDS: [TKind; 3] = [TKind::Multi, TKind::Composite, TKind::Directional];
+
+/// (1) every selector kind, simple and nested, over all ranges of a short text
+fn shape_cases(tier: Tier) -> Vec<DCase> {
+    let rtext: &str = tier.pick("a\u{e9}\u{1d11e}", "a\u{e9}\u{1d11e}d");
+    let len = rtext.chars().count();
+    let base = StoreSpec {
+        res: vec![("r".into(), rtext.into()), ("q".into(), "xyz".into())],
+        anns: vec![
+            simple(Some("a0"), text("r", 1, 3), vec![DataSpec { set: "s".into(), key: "k".into(), val: DataValue::Int(1), id: Some("d0".into()) }]),
+            simple(Some("a1"), text("r", 0, 2), vec![d("s", "k2", DataValue::String("v".into()))]),
+            simple(None, text("r", 0, 1), vec![]),
+            simple(Some("a3"), PartSpec::Ann(0, Some((1, 2))), vec![]), // absolute [2,3)
+        ],
+    };
+    let subject = base.anns.len();
+    let plain_data = || vec![d("s", "k3", DataValue::String("v".into()))];
+    let mut out: Vec<DCase> = Vec::new();
+    let mut push = |kind: TKind, parts: Vec<PartSpec>, data: Vec<DataSpec>| {
+        let mut spec = base.clone();
+        spec.anns.push(AnnSpec { id: Some("x".into()), kind, parts, data });
+        out.push(DCase { class: String::new(), spec, subjects: vec![subject], by_shape: true, suppress: vec![] });
+    };
+    // simple targets
+    for (b, e) in all_ranges(len) {
+        push(TKind::Simple, vec![text("r", b, e)], plain_data());
+    }
+    push(TKind::Simple, vec![text("q", 0, 1)], plain_data());
+    push(TKind::Simple, vec![text("r", 0, 2)], vec![]);
+    let simple_parts = vec![
+        PartSpec::Ann(0, None),
+        PartSpec::Ann(2, None),
+        PartSpec::Ann(0, Some((0, 2))),
+        PartSpec::Ann(0, Some((1, 2))),
+        PartSpec::Ann(0, Some((0, 0))),
+        PartSpec::Ann(3, Some((0, 1))),
+        PartSpec::Res("r".into()),
+        PartSpec::Set("s".into()),
+        PartSpec::Key("s".into(), "k".into()),
+        PartSpec::Data("s".into(), "d0".into()),
+    ];
+    for p in &simple_parts {
+        push(TKind::Simple, vec![p.clone()], plain_data());
+    }
+    push(TKind::Simple, vec![PartSpec::Res("r".into())], vec![]);
+    // complex targets over text selectors: all ordered pairs of distinct ranges, ordered triples of a pool
+    let ranges = all_ranges(len);
+    for kind in KINDS {
+        for a in &ranges {
+            for b in &ranges {
+                if a != b {
+                    push(kind, vec![text("r", a.0, a.1), text("r", b.0, b.1)], plain_data());
+                }
+            }
+        }
+        let pool: Vec<(usize, usize)> = tier.pick(vec![(0, 1), (1, 2), (2, 3), (0, 3)], ranges.clone());
+        for a in &pool {
+            for b in &pool {
+                for c in &pool {
+                    if a != b && b != c && a != c {
+                        push(kind, vec![text("r", a.0, a.1), text("r", b.0, b.1), text("r", c.0, c.1)], plain_data());
+                    }
+                }
+            }
+        }
+        push(kind, vec![text("r", 0, 1), text("r", 1, 2)], vec![]);
+    }
+    // complex targets over every part kind: all sequences of distinct parts up to a length
+    let pool = vec![
+        text("r", 0, 1),
+        text("r", 1, 3),
+        text("q", 0, 2),
+        PartSpec::Ann(0, Some((1, 2))),
+        PartSpec::Ann(0, None),
+        PartSpec::Ann(1, None),
+        PartSpec::Res("r".into()),
+        PartSpec::Set("s".into()),
+        PartSpec::Key("s".into(), "k".into()),
+        PartSpec::Data("s".into(), "d0".into()),
+    ];
+    let n = pool.len();
+    for kind in KINDS {
+        for i in 0..n {
+            push(kind, vec![pool[i].clone()], plain_data());
+            for j in 0..n {
+                if i == j {
+                    continue;
+                }
+                push(kind, vec![pool[i].clone(), pool[j].clone()], plain_data());
+                if tier == Tier::Thorough {
+                    for k in 0..n {
+                        if k != i && k != j {
+                            push(kind, vec![pool[i].clone(), pool[j].clone(), pool[k].clone()], plain_data());
+                        }
+                    }
+                }
+            }
+        }
+    }
+    out
+}
+
+/// JSON-relevant class of a string: the most delicate kind of character it contains
+pub fn jclass(s: &str) -> String {
+    if s.is_empty() {
+        return "empty".into();
+    }
+    let has = |f: &dyn Fn(char) -> bool| s.chars().any(|c| f(c));
+    let core = if has(&|c| c == '\\') {
+        "backslash"
+    } else if has(&|c| (c as u32) < 0x20 && c != '\n' && c != '\t') {
+        "control"
+    } else if has(&|c| c == '\t') {
+        "tab"
+    } else if has(&|c| c == '"') {
+        "quote"
+    } else if has(&|c| c == '\n') {
+        "newline"
+    } else if has(&|c| (c as u32) > 0xffff) {
+        "nonbmp"
+    } else if has(&|c| !c.is_ascii()) {
+        "nonascii"
+    } else {
+        "ascii"
+    };
+    if s.contains(':') {
+        format!("iri+{}", core)
+    } else {
+        core.into()
+    }
+}
+
+fn vclass(v: &DataValue) -> String {
+    match v {
+        DataValue::String(s) => format!("String:{}", jclass(s)),
+        DataValue::List(l) => format!("List[{}]", l.iter().map(vclass).collect::<Vec<_>>().join(",")),
+        other => value_class(other),
+    }
+}
+
+fn strings_up_to(syms: &[char], n: usize) -> Vec<String> {
+    let mut all: Vec<String> = vec![String::new()];
+    let mut last: Vec<String> = vec![String::new()];
+    for _ in 0..n {
+        let mut next = Vec::new();
+        for s in &last {
+            for c in syms {
+                next.push(format!("{}{}", s, c));
+            }
+        }
+        all.extend(next.iter().cloned());
+        last = next;
+    }
+    all
+}
+
+fn extra_strings() -> Vec<String> {
+    vec![
+        "\r".into(),
+        "\u{7f}".into(),
+        "\u{0}".into(),
+        "\u{1f}".into(),
+        "\u{8}".into(),
+        "http://example.org/x".into(),
+        "http://example.org/a\\b".into(),
+        "urn:a\u{1}".into(),
+        "_:b".into(),
+        "mailto:x".into(),
+        "http://a b".into(),
+    ]
+    .into_iter()
+    .chain(iri_awkward())
+    .collect()
+}
+
+/// strings that start like an IRI (scheme the exporter recognises) and contain one awkward character later on
+fn iri_awkward() -> Vec<String> {
+    let mut v = Vec::new();
+    for prefix in ["http://e/", "https://e/", "urn:", "file:", "_:"] {
+        for c in ['"', '\n', '\t', '\\', '\u{1}', ' ', '\u{e9}'] {
+            v.push(format!("{}{}", prefix, c));
+            v.push(format!("{}a{}b", prefix, c));
+        }
+    }
+    v
+}
+
+fn value_list(tier: Tier) -> Vec<DataValue> {
+    let mut v = value_menu(true);
+    for s in extra_strings() {
+        v.push(DataValue::String(s));
+    }
+    if tier == Tier::Thorough {
+        for s in strings_up_to(&['a', '"', '\\', '\n', '\t', '\u{1}', '\u{e9}', '\u{1f600}'], 3) {
+            if s.chars().count() == 3 {
+                v.push(DataValue::String(s));
+            }
+        }
+    }
+    v
+}
+
+/// (2) every value as body value, alone / first of two / second of two
+fn value_cases(tier: Tier, plain: &Vec<Vec<String>>) -> Vec<DCase> {
+    let mut out = Vec::new();
+    let res = vec![("r".to_string(), "ab cd".to_string())];
+    let mut push = |class: String, data: Vec<DataSpec>| {
+        out.push(DCase {
+            class,
+            spec: StoreSpec { res: res.clone(), anns: vec![simple(Some("a0"), text("r", 0, 2), data)] },
+            subjects: vec![0],
+            by_shape: false,
+            // the target and identifiers are those of the plain annotation: what fails there is not reported per value
+            suppress: vec![plain.clone()],
+        });
+    };
+    for v in value_list(tier) {
+        let c = format!("value:{}", vclass(&v));
+        push(c.clone(), vec![d("s", "k", v.clone())]);
+        push(c.clone(), vec![d("s", "k", v.clone()), d("s", "z", DataValue::Int(7))]);
+        push(c.clone(), vec![d("s", "j", DataValue::Int(7)), d("s", "k", v.clone())]);
+    }
+    push("value:two-values-under-one-key".into(), vec![d("s", "k", DataValue::Int(1)), d("s", "k", DataValue::Int(2))]);
+    push("value:same-key-in-two-sets".into(), vec![d("s", "k", DataValue::Int(1)), d("s2", "k", DataValue::Int(2))]);
+    out
+}
+
+/// (3) keys of the W3C Web Annotation namespace
+fn annokey_cases(plain: &Vec<Vec<String>>) -> Vec<DCase> {
+    let mut out = Vec::new();
+    let res = vec![("r".to_string(), "ab cd".to_string())];
+    let mut push = |class: String, data: Vec<DataSpec>| {
+        out.push(DCase {
+            class,
+            spec: StoreSpec { res: res.clone(), anns: vec![simple(Some("a0"), text("r", 0, 2), data)] },
+            subjects: vec![0],
+            by_shape: false,
+            // the target and identifiers are those of the plain annotation: what fails there is not reported per value
+            suppress: vec![plain.clone()],
+        });
+    };
+    let sv = |s: &str| DataValue::String(s.to_string());
+    let keys = ["motivation", "created", "creator", "generated", "generator", "value", "purpose", "type", "id"];
+    for set in [NS_ANNO, CONTEXT_ANNO] {
+        for key in keys {
+            let place = if TOP_KEYS.contains(&key) {
+                "top".to_string()
+            } else if key == "type" || key == "id" {
+                format!("body-{}", key)
+            } else {
+                "body".to_string()
+            };
+            let v = sv("tagging");
+            push(format!("annokey:{}:alone", place), vec![d(set, key, v.clone())]);
+            push(format!("annokey:{}:before-plain-key", place), vec![d(set, key, v.clone()), d("s", "k", sv("v"))]);
+            push(format!("annokey:{}:after-plain-key", place), vec![d("s", "k", sv("v")), d(set, key, v.clone())]);
+            if key != "creator" {
+                push(format!("annokey:{}:with-creator", place), vec![d(set, key, v.clone()), d(set, "creator", sv("me"))]);
+            }
+            if key != "purpose" {
+                push(format!("annokey:{}:with-purpose", place), vec![d(set, key, v.clone()), d(set, "purpose", sv("p"))]);
+            }
+        }
+        let dt = DataValue::Datetime(chrono::DateTime::parse_from_rfc3339("2024-03-01T12:30:45+01:00").unwrap());
+        for key in ["motivation", "value"] {
+            let place = if key == "motivation" { "top" } else { "body" };
+            for (vi, v) in [
+                sv("http://example.org/x"),
+                sv("a\\b"),
+                sv("a\tb"),
+                sv("a\"b"),
+                DataValue::Int(3),
+                DataValue::Bool(true),
+                DataValue::Null,
+                dt.clone(),
+                DataValue::List(vec![DataValue::Int(1), DataValue::Int(2)]),
+            ]
+            .into_iter()
+            .enumerate()
+            {
+                if place == "body" && vi != 0 && vi != 3 {
+                    continue; // body members share the code path of the value sweep: only the IRI and the quote variant
+                }
+                push(format!("annokey:{}:value={}", place, vclass(&v)), vec![d(set, key, v.clone()), d("s", "k", sv("v"))]);
+            }
+        }
+    }
+    out
+}
+
+fn ident_strings(tier: Tier) -> Vec<String> {
+    let mut v: Vec<String> = awkward_strings().into_iter().filter(|s| !s.is_empty()).collect();
+    v.extend(extra_strings());
+    if tier == Tier::Thorough {
+        for s in strings_up_to(&['a', '"', '\\', '\t', '\u{e9}'], 3) {
+            if s.chars().count() == 3 {
+                v.push(s);
+            }
+        }
+    }
+    v
+}
+
+fn ident_spec(a: &str, r: &str, set: &str, key: &str) -> StoreSpec {
+    StoreSpec {
+        res: vec![(r.to_string(), "ab cd".into())],
+        anns: vec![
+            simple(Some(a), text(r, 0, 2), vec![d(set, key, DataValue::Int(1))]),
+            simple(Some("t1"), PartSpec::Ann(0, None), vec![]),
+            simple(Some("t2"), PartSpec::Res(r.to_string()), vec![]),
+            simple(Some("t3"), PartSpec::Set(set.to_string()), vec![]),
+            AnnSpec { id: Some("t4".into()), kind: TKind::Directional, parts: vec![text(r, 3, 5), text(r, 0, 1)], data: vec![] },
+        ],
+    }
+}
+
+/// Symptoms of the identifier-sweep store with plain identifiers, per annotation and configuration: they belong to the
+/// target shapes (reported by the shape sweep), not to the identifiers.
+fn ident_baseline(cfgs: &[Cfg]) -> Vec<Vec<Vec<String>>> {
+    let spec = ident_spec("a0", "r", "s", "k");
+    let silent = Reporter::new("C17-baseline", Tier::Quick, true);
+    let cn = Counters::default();
+    let store = build(&spec).expect("plain identifier store must build");
+    (0..spec.anns.len())
+        .map(|i| {
+            let abs = abs_of_spec(&spec, i).unwrap();
+            check_annotation(&silent, &store, i, &abs, cfgs, "baseline", 0, &|_| Value::Null, &cn, false, None)
+        })
+        .collect()
+}
+
+/// (4) every awkward string in every identifier role
+fn ident_cases(tier: Tier, cfgs: &[Cfg]) -> Vec<DCase> {
+    let baseline = ident_baseline(cfgs);
+    let mut out = Vec::new();
+    for s in ident_strings(tier) {
+        for role in ["annotation-id", "resource-id", "dataset-id", "key-id"] {
+            let pick = |r: &str, dflt: &str| if role == r { s.clone() } else { dflt.to_string() };
+            let spec = ident_spec(&pick("annotation-id", "a0"), &pick("resource-id", "r"), &pick("dataset-id", "s"), &pick("key-id", "k"));
+            let subjects = match role {
+                "annotation-id" => vec![0, 1],
+                "resource-id" => vec![0, 2, 4],
+                "dataset-id" => vec![0, 3],
+                _ => vec![0],
+            };
+            out.push(DCase { class: format!("{}:{}", role, jclass(&s)), spec, suppress: subjects.iter().map(|i| baseline[*i].clone()).collect(), subjects, by_shape: false });
+        }
+    }
+    out
+}
+
+fn run_direct(rep: &Reporter, name: &str, base_ord: u64, cases: &[DCase], cfgs: &[Cfg], cn: &Counters, build_failures: &AtomicU64) {
+    cases.par_iter().enumerate().for_each(|(i, c)| {
+        let store = match build(&c.spec) {
+            Ok(s) => s,
+            Err(e) => {
+                build_failures.fetch_add(1, Ordering::Relaxed);
+                if std::env::var("C17_DEBUG").is_ok() {
+                    eprintln!("C17REFUSED {} {} {:?}", name, e, c.spec.anns.last().map(|a| (&a.id, a.kind, &a.parts)));
+                }
+                return;
+            }
+        };
+        for (si, &subj) in c.subjects.iter().enumerate() {
+            let abs = match abs_of_spec(&c.spec, subj) {
+                Some(a) => a,
+                None => continue,
+            };
+            let class = if c.by_shape { shape_class(&abs) } else { c.class.clone() };
+            // simplest witness first: few parts, short identifiers, short string values
+            let size: usize = c.spec.anns[subj].parts.len()
+                + c.spec.res.iter().map(|r| r.0.len()).sum::<usize>()
+                + c.spec.anns.iter().map(|a| a.id.as_ref().map(|x| x.len()).unwrap_or(0)).sum::<usize>()
+                + c.spec.anns[subj]
+                    .data
+                    .iter()
+                    .map(|d| d.set.len() + d.key.len() + if let DataValue::String(x) = &d.val { x.len() } else { 0 })
+                    .sum::<usize>();
+            check_annotation(
+                rep,
+                &store,
+                subj,
+                &abs,
+                cfgs,
+                &class,
+                base_ord + (size as u64) * 1_000_000 + i as u64,
+                &|cfg| json!({"direct": {"sweep": name, "class": class, "spec": spec_to_json(&c.spec), "subject": subj}, "cfg": cfg}),
+                cn,
+                false,
+                c.suppress.get(si),
+            );
+        }
+    });
+}
+
+// ---------------------------------------------------------------------------------------------
+// (5) the stores of the history exploration
+
+struct HistOracle {
+    cfgs: Vec<Cfg>,
+    cn: Counters,
+    anns: AtomicU64,
+    /// annotations with key/data selectors nested in a complex target make the library print a warning on stderr at
+    /// every export: each distinct such annotation (by content) is exported once, not once per state
+    noisy_seen: std::sync::Mutex<std::collections::HashSet<u64>>,
+    noisy_skipped: AtomicU64,
+}
+
+impl Oracle for HistOracle {
+    fn transition(&self, rep: &Reporter, t: &Trans) -> bool {
+        if t.divergence.is_some() || !t.new_state {
+            return true;
+        }
+        for i in t.post_model.live_anns() {
+            let abs = match abs_of_model(t.post_model, i) {
+                Some(a) => a,
+                None => {
+                    self.cn.skipped.fetch_add(1, Ordering::Relaxed);
+                    continue;
+                }
+            };
+            if abs.kind != TKind::Simple && abs.items.iter().any(|x| matches!(x, AItem::Unser)) {
+                let key = crate::util::fnv64(format!("{:?}", abs).as_bytes());
+                if !self.noisy_seen.lock().unwrap().insert(key) {
+                    self.noisy_skipped.fetch_add(1, Ordering::Relaxed);
+                    continue;
+                }
+            }
+            self.anns.fetch_add(1, Ordering::Relaxed);
+            let class = shape_class(&abs);
+            check_annotation(
+                rep,
+                t.post,
+                i,
+                &abs,
+                &self.cfgs,
+                &class,
+                (1 << 40) + (t.ord >> 8),
+                &|cfg| json!({"history": history_json(t.hist, Some(t.op)), "ann": i, "cfg": cfg}),
+                &self.cn,
+                false,
+                None,
+            );
+        }
+        true
+    }
+}
+
+pub fn run(rep: &Reporter) -> Coverage {
+    let cn = Counters::default();
+    let (cfgs, plain) = probe_configs(rep, &cn);
+    let build_failures = AtomicU64::new(0);
+    let sweeps: Vec<(&str, Vec<DCase>)> = vec![
+        ("shape", shape_cases(rep.tier)),
+        ("value", value_cases(rep.tier, &plain)),
+        ("annokey", annokey_cases(&plain)),
+        ("ident", ident_cases(rep.tier, &cfgs)),
+    ];
+    let mut space = Map::new();
+    let mut direct_cases = 0u64;
+    for (k, (name, cases)) in sweeps.iter().enumerate() {
+        run_direct(rep, name, (k as u64) << 36, cases, &cfgs, &cn, &build_failures);
+        let n: u64 = cases.iter().map(|c| c.subjects.len() as u64).sum();
+        direct_cases += n * cfgs.len() as u64;
+        space.insert(format!("{}_sweep", name), json!({"stores": cases.len(), "annotations_exported": n, "configurations": cfgs.len()}));
+    }
+    let direct_exports = cn.exports.load(Ordering::Relaxed);
+    // history stores
+    let oracle = HistOracle { cfgs: probe_configs(rep, &Counters::default()).0, cn: Counters::default(), anns: AtomicU64::new(0), noisy_seen: Default::default(), noisy_skipped: AtomicU64::new(0) };
+    let mut runs = Vec::new();
+    let mut exhaustive = true;
+    let mut hist_states = 0u64;
+    let mut hist_transitions = 0u64;
+    let mut samples: Vec<Value> = Vec::new();
+    let budget = rep.tier.pick(25.0, 600.0);
+    // The explorations are those of C01; depth is capped at 4 operations after the initial ones: an export reads one
+    // annotation and the items it references, and every (state, annotation) pair is exported six times, so the fifth
+    // level of the reduced alphabet (5x the cost of everything else together) would add states but no new annotations.
+    for plan in plans(rep.tier) {
+        let depth = plan.depth.min(4);
+        let stats = explore(rep, &oracle, &plan.init, &plan.al, depth, budget);
+        hist_states += stats.states;
+        hist_transitions += stats.transitions;
+        exhaustive &= stats.completed_depth == depth;
+        for h in stats.sample_histories.iter().take(1) {
+            samples.push(json!({"history": h, "then": "export every live annotation under every configuration"}));
+        }
+        runs.push(json!({"exploration": plan.name, "depth_requested": depth, "depth_completed": stats.completed_depth,
+            "new_states_per_depth": stats.depth_hist, "transitions": stats.transitions}));
+    }
+    let hist_exports = oracle.cn.exports.load(Ordering::Relaxed);
+    let sum = |f: &dyn Fn(&Counters) -> &AtomicU64| f(&cn).load(Ordering::Relaxed) + f(&oracle.cn).load(Ordering::Relaxed);
+    let mut cov = Coverage::default();
+    let _ = direct_cases;
+    cov.states = direct_exports + hist_exports;
+    cov.transitions = direct_exports + hist_exports + hist_transitions;
+    cov.evaluations = direct_exports + hist_exports;
+    cov.traces_validated = direct_exports + hist_exports;
+    cov.distinct_nontrivial = sum(&|c| &c.accepted);
+    cov.exhaustive = exhaustive;
+    cov.rule = "states = (store, annotation, export configuration) cases: (1) every selector kind as simple target (TextSelector over all ranges [b,e) of the text, AnnotationSelector with/without offset incl. a chain and an id-less annotation, ResourceSelector, DataSetSelector, DataKeySelector, AnnotationDataSelector) and nested in Multi/Composite/Directional selectors (all ordered pairs of distinct ranges, ordered triples of a pool, all sequences of distinct parts of a 10-part pool up to the stated length); (2) every value of the menu (Null, Bool, Int incl. range ends, Float incl. NaN/inf, datetimes with offsets and sub-seconds, flat/nested/empty lists, all strings of length <= 2 over 12 symbols plus control/IRI strings; thorough: length 3 over 8 symbols) alone, before and after another member; (3) the keys of the W3C namespace in five layouts and with nine value kinds; (4) every awkward string as annotation / resource / dataset / key identifier; (5) every live annotation of every distinct state of the history explorations of C01 up to depth 4 (expectation derived from the reference model; an annotation with a key/data selector nested in a complex target is exported once per distinct content because the library warns on stderr at each export); each crossed with the six configurations {default, IRI prefixes, namespaces, extra_context, namespaces+extra_context, extra_target_template}. transitions = to_webannotation calls + history operations; every output is parsed with serde_json and compared structurally (id, @context, flattened target items in order, template targets, each data member's JSON type and content). non-trivial = exports with non-empty output".into();
+    samples.push(json!({"direct": "Directional[Text(r,1,3), Text(r,0,1)] with data s/k3=\"v\" under cfg template"}));
+    samples.push(json!({"direct": "value List[[1],[],\"x\"] as s/k followed by s/z=7 under cfg namespaces"}));
+    samples.push(json!({"direct": "resource id \"\\\\\\t\" exported through TextSelector, ResourceSelector and Directional selector under cfg prefixes"}));
+    cov.samples = samples;
+    space.insert("history_explorations".into(), json!(runs));
+    space.insert("history_states".into(), json!(hist_states));
+    space.insert("history_repeat_exports_of_annotations_with_nested_key_or_data_selector_not_made".into(), json!(oracle.noisy_skipped.load(Ordering::Relaxed)));
+    space.insert("history_annotations_exported".into(), json!(oracle.anns.load(Ordering::Relaxed)));
+    space.insert("configurations".into(), json!(cfgs.iter().map(|c| c.name).collect::<Vec<_>>()));
+    cov.extra.insert("space".into(), Value::Object(space));
+    cov.extra.insert("exports".into(), json!(direct_exports + hist_exports));
+    cov.extra.insert("exports_with_output".into(), json!(sum(&|c| &c.accepted)));
+    cov.extra.insert("exports_faithful".into(), json!(sum(&|c| &c.faithful)));
+    cov.extra.insert("exports_empty_output".into(), json!(sum(&|c| &c.rejected)));
+    cov.extra.insert("cases_skipped_item_not_found".into(), json!(sum(&|c| &c.skipped)));
+    cov.extra.insert("stores_refused_by_builder".into(), json!(build_failures.load(Ordering::Relaxed)));
+    if std::env::var("C17_DEBUG").is_ok() {
+        eprintln!("C17DEBUG {}", serde_json::to_string_pretty(&cov.extra).unwrap());
+    }
+    cov.assumptions = vec![
+        "identifiers without special characters map to IRIs as documented (kept if already an IRI, else prefix joined with '/' unless the prefix ends in '/', '#' or ':'); for identifiers with special characters the documentation only promises 'some transformations', so the expected IRI is what the library's public IRI::iri() returns and only its JSON encoding is checked".into(),
+        "the parts of Multi- and CompositeSelectors are compared as a multiset (STAM gives their order no meaning and the store normalises it); Simple and Directional targets are compared in order".into(),
+        "the type IRI used for the complex-selector wrapper object and the presence of body type/id members are not checked (not part of the property)".into(),
+        "non-finite floats have no JSON form: only well-formedness is required for them; finite floats are compared with relative tolerance 1e-14 (serde_json's number parser is not correctly rounded)".into(),
+        "a string value containing ':' may be exported either as a JSON string or as {\"id\": string} (STAM: IRI-valued strings should be read as IRIs)".into(),
+        "an AnnotationSelector on an annotation without public id has no documented form: only well-formedness is required of that target item".into(),
+        "stores the builder API refuses (or panics on) are not cases of this property; their number is reported".into(),
+        "the export of an annotation with a top-level DataKeySelector / AnnotationDataSelector is documented as empty (not accepted)".into(),
+    ];
+    cov
+}
+
+/// Re-execute one recorded case and print every configuration's output and verdict.
+pub fn replay(rep: &Reporter, case: &Value) {
+    let cn = Counters::default();
+    // the configuration probe runs silently here: its own findings are replayed through their own case files
+    let (cfgs, plain) = probe_configs(&Reporter::new("C17-probe", Tier::Quick, true), &Counters::default());
+    if let Some(dc) = case.get("direct") {
+        let spec = match spec_from_json(&dc["spec"]) {
+            Some(s) => s,
+            None => {
+                println!("replay C17: cannot decode the case specification");
+                return;
+            }
+        };
+        let subj = dc["subject"].as_u64().unwrap_or(0) as usize;
+        let class = dc["class"].as_str().unwrap_or("?").to_string();
+        println!("replay C17: sweep={} class={} subject annotation #{}", dc["sweep"], class, subj);
+        for (i, a) in spec.anns.iter().enumerate() {
+            println!("   annotation #{} id={:?} {:?} {:?} data={:?}", i, a.id, a.kind, a.parts, a.data.iter().map(|d| (&d.set, &d.key, &d.val)).collect::<Vec<_>>());
+        }
+        let store = match build(&spec) {
+            Ok(s) => s,
+            Err(e) => {
+                println!("  the builder refused the store: {}", e);
+                return;
+            }
+        };
+        if let Some(abs) = abs_of_spec(&spec, subj) {
+            let c = case.clone();
+            let baseline = if dc["sweep"] == "ident" {
+                ident_baseline(&cfgs).get(subj).cloned()
+            } else if dc["sweep"] == "value" || dc["sweep"] == "annokey" {
+                Some(plain.clone())
+            } else {
+                None
+            };
+            check_annotation(rep, &store, subj, &abs, &cfgs, &class, 0, &|_| c.clone(), &cn, true, baseline.as_ref());
+        }
+    } else {
+        let hist = history_from_json(&case["history"]);
+        let i = case["ann"].as_u64().unwrap_or(0) as usize;
+        println!("replay C17: history:");
+        for o in &hist {
+            println!("   {}", o.short());
+        }
+        let (store, _) = crate::ops::replay_real(&hist);
+        let model = replay_model(&hist);
+        match abs_of_model(&model, i) {
+            Some(abs) => {
+                println!("  annotation #{}: {}", i, describe(&abs));
+                let class = shape_class(&abs);
+                let c = case.clone();
+                check_annotation(rep, &store, i, &abs, &cfgs, &class, 0, &|_| c.clone(), &cn, true, None);
+            }
+            None => println!("  annotation #{} is not live in the model", i),
+        }
+    }
+    println!(
+        "  exports={} with-output={} faithful={} skipped={}",
+        cn.exports.load(Ordering::Relaxed),
+        cn.accepted.load(Ordering::Relaxed),
+        cn.faithful.load(Ordering::Relaxed),
+        cn.skipped.load(Ordering::Relaxed)
+    );
+}
